@@ -29,12 +29,29 @@ Definition prim_to_index (t : Token) : result Index ParseIndexError :=
   | Err e => Err (gen_pie_of (cow_text (Token_inner t)) e)
   end.
 
-(* `s.parse::<usize>()` on the generated error type: the hand-written [parse_usize] (Model/Index.v) *)
+(* `s.parse::<usize>()` = usize::from_str(s) = from_str_radix(s, 10), on ARBITRARY text (core::num): empty -> Empty; one
+   optional leading '+' (a lone sign -> InvalidDigit; '-' is not a sign for unsigned types); then left to right, each char
+   must be an ASCII digit (else InvalidDigit) and `acc * 10 + digit` must stay within usize (else PosOverflow) -- whichever
+   fails first.  (On strings of digits this is the hand-written [parse_usize] of Model/Index.v: Proofs/GenEquivIndexStr.v.) *)
+Fixpoint parse_digits (acc : N) (s : str) : result N ParseIntError :=
+  match s with
+  | [] => Ok acc
+  | c :: r =>
+      if is_digit c then
+        let acc' := 10 * acc + (c - 48) in
+        if USIZE_MAX <? acc' then Err ParseIntError_PosOverflow else parse_digits acc' r
+      else Err ParseIntError_InvalidDigit
+  end.
+
 Definition prim_parse_usize (s : str) : result N ParseIntError :=
-  match parse_usize s with
-  | Ok n => Ok n
-  | Err IntEmpty => Err ParseIntError_Empty
-  | Err IntPosOverflow => Err ParseIntError_PosOverflow
+  match s with
+  | [] => Err ParseIntError_Empty
+  | c :: r =>
+      let body := if c =? 43 then r else s in
+      match body with
+      | [] => Err ParseIntError_InvalidDigit
+      | _ => parse_digits 0 body
+      end
   end.
 
 (* ---- lens mode (Generated/ScanTreeMut.v): a `&mut` reference INTO a document is the pair of the content it points at
